@@ -32,7 +32,8 @@ From BR Require Import Base.Prelude Gen.Consts Gen.Panics Model.PanicSites Bridg
   Model.ActionResult Proofs.ActionResult_validate Proofs.ActionResult_store
   Model.ByteStream Proofs.ByteStream_write
   Model.LRU Model.Disk Proofs.Disk_inv1 Proofs.Disk_inv2 Proofs.Disk_inv Proofs.Disk_conc2
-  Model.Protocols Proofs.Protocols_base Proofs.Protocols_splice Proofs.Protocols_legacy.
+  Gen.DiskSrc Bridge.Bridge_Disk
+  Model.Protocols Proofs.Protocols_base Proofs.Protocols_splice Proofs.Protocols_legacy Proofs.Protocols_pin.
 Open Scope string_scope.
 Open Scope list_scope.
 Open Scope Z_scope.
@@ -93,23 +94,34 @@ Theorem C14_write_protocol_total :
 Proof. exact handler_total. Qed.
 Print Assumptions C14_write_protocol_total.
 
-(* SpliceBlob, for every budget n of data (chunks and pieces of chunks): from every reachable
-   state in which the handler has returned, every run of what is left (the writer goroutine) is
-   finite and ends with the goroutine exited, pw closed, no chunk file open.  The reachable control
-   states were enumerated (84 abstract states, Protocols_splice.splice_states_count) and checked. *)
+(* The premise of the SpliceBlob protocol, tied to the source: SpliceBlob never closes the read end
+   of its pipe; the feeder goroutine terminates because diskCache.Put consumes the read end on
+   every return path.  [put_drains] decides that on the text of Put that go2coq regenerates (opens
+   with the deferred drain of r; r is given up only after writeAndCloseFile has read it to EOF);
+   the same text is pinned verbatim by Bridge_Disk.src_diskCache_Put_pinned. *)
+Theorem C14_put_consumes_its_reader :
+  put_drains Gen.DiskSrc.src_diskCache_Put = true.
+Proof. exact put_drains_pinned. Qed.
+Print Assumptions C14_put_consumes_its_reader.
+
+(* SpliceBlob, for every budget n of data (chunks and pieces of chunks), with the drain parameter
+   of the model computed from the source of Put: from every reachable state in which the handler
+   has returned, every run of what is left (the writer goroutine) is finite and ends with the
+   goroutine exited, pw closed, no chunk file open.  The reachable control states were enumerated
+   (84 abstract states, Protocols_splice.splice_states_count) and checked. *)
 Theorem C14_splice_no_hang :
-  forall n s, reach (splice_cstep true) (splice_init, n) s -> s_h (fst s) = HRet ->
-    all_runs_end_in (splice_cstep true)
+  forall n s, reach (splice_cstep (put_drains Gen.DiskSrc.src_diskCache_Put)) (splice_init, n) s -> s_h (fst s) = HRet ->
+    all_runs_end_in (splice_cstep (put_drains Gen.DiskSrc.src_diskCache_Put))
       (fun s' => s_h (fst s') = HRet /\ s_w (fst s') = WExit /\ s_wclosed (fst s') = true /\ s_rcopen (fst s') = false) s.
-Proof. exact splice_no_hang. Qed.
+Proof. exact splice_no_hang_code. Qed.
 Print Assumptions C14_splice_no_hang.
 
 (* ... and from the call of cache.Put on, every run of handler and goroutine together is finite
    and ends with both finished: the handler itself cannot block either *)
 Theorem C14_splice_total :
-  forall n s, reach (splice_cstep true) (splice_init, n) s ->
-    all_runs_end_in (splice_cstep true) (fun s' => splice_final (fst s') = true) s.
-Proof. exact splice_total. Qed.
+  forall n s, reach (splice_cstep (put_drains Gen.DiskSrc.src_diskCache_Put)) (splice_init, n) s ->
+    all_runs_end_in (splice_cstep (put_drains Gen.DiskSrc.src_diskCache_Put)) (fun s' => splice_final (fst s') = true) s.
+Proof. exact splice_total_code. Qed.
 Print Assumptions C14_splice_total.
 
 (* when Put failed, the writer's result is in the channel by the time the handler polls it *)
